@@ -1,7 +1,21 @@
 package props
 
-import "testing"
+import (
+	"testing"
+
+	"verif/harness/gen"
+)
 
 func TestC03_Total(t *testing.T) {
 	checkRapid(t, "C03", "TestC03_Total", ruleC03, drawC03)
+}
+
+func TestC03_Reduced(t *testing.T) {
+	sentences := gen.ReducedSentences()
+	runEnumerated(t, "C03", "TestC03_Reduced",
+		"every sentence of the bounded-exhaustive reduced grammar (see TestC02_Reduced) that Parse accepts, under 4 configs, evaluated on 6 documents: the small one, two hard ones (every JSON type side by side, numbers beyond the float64 range) in both decodings, and one built in Go with values of uncomparable types; every evaluation ends in values or a documented runtime error. Enumerated completely.",
+		4*len(sentences), func(i int) *Case {
+			cfg := i % 4
+			return &Case{Path: sentences[i/4], Funcs: cfg&1 == 1, Accessor: cfg&2 == 2, Strs: []string{"reduced-grammar"}}
+		})
 }
